@@ -179,6 +179,9 @@ pub(crate) fn check_live(addr: usize) {
 pub struct Trace {
     pub enabled: bool,
     pub steps: u64,
+    /// rolling hash of (ip, opcode, stack height, frame count) over all executed instructions:
+    /// lets a model of the machine be compared with this VM in lockstep, not only at the end
+    pub step_hash: u64,
     pub halt_stack: usize,
     pub max_stack: usize,
     /// per collection: (objects kept, objects released)
@@ -212,6 +215,14 @@ pub(crate) fn on_step(ip: usize, opcode: u8, stack: usize, frames: usize, bp: us
             return;
         }
         t.steps += 1;
+        t.step_hash = t
+            .step_hash
+            .wrapping_mul(1099511628211)
+            .wrapping_add((ip as u64).wrapping_mul(31))
+            .wrapping_add((opcode as u64).wrapping_mul(131))
+            .wrapping_add((stack as u64).wrapping_mul(65537))
+            .wrapping_add((frames as u64).wrapping_mul(16777259))
+            .wrapping_add(1);
         if stack > t.max_stack {
             t.max_stack = stack;
         }
